@@ -197,7 +197,43 @@ pub struct Engine {
 }
 
 struct WatchSlot {
-    started: Mutex<Option<(Instant, Option<String>)>>,
+    /// (wall-clock start, CPU time of the worker thread at the start, its CPU clock, stashed case)
+    started: Mutex<Option<(Instant, Duration, i32, Option<String>)>>,
+}
+
+// The case deadline is measured in CPU time of the worker thread, so that a loaded machine (other
+// checks, builds) cannot turn a slow case into a "hang"; a wall-clock limit of 20 deadlines backs it
+// up for a thread that blocks without burning CPU.
+#[repr(C)]
+struct Timespec {
+    tv_sec: i64,
+    tv_nsec: i64,
+}
+extern "C" {
+    fn pthread_self() -> usize;
+    fn pthread_getcpuclockid(thread: usize, clock_id: *mut i32) -> i32;
+    fn clock_gettime(clock_id: i32, tp: *mut Timespec) -> i32;
+}
+
+fn own_cpu_clock() -> i32 {
+    let mut id = 0i32;
+    unsafe {
+        if pthread_getcpuclockid(pthread_self(), &mut id) != 0 {
+            return -1;
+        }
+    }
+    id
+}
+
+fn cpu_time(clock: i32) -> Option<Duration> {
+    if clock == -1 {
+        return None;
+    }
+    let mut ts = Timespec { tv_sec: 0, tv_nsec: 0 };
+    if unsafe { clock_gettime(clock, &mut ts) } != 0 {
+        return None;
+    }
+    Some(Duration::new(ts.tv_sec as u64, ts.tv_nsec as u32))
 }
 
 impl Engine {
@@ -415,8 +451,13 @@ impl Engine {
                 }
                 for s in &wd_slots {
                     let g = s.started.lock().unwrap();
-                    if let Some((t, stash)) = &*g {
-                        if t.elapsed() > this.case_deadline {
+                    if let Some((t, cpu0, clock, stash)) = &*g {
+                        let burnt = cpu_time(*clock).map(|c| c.saturating_sub(*cpu0));
+                        let over = match burnt {
+                            Some(b) => b > this.case_deadline || t.elapsed() > this.case_deadline * 20,
+                            None => t.elapsed() > this.case_deadline,
+                        };
+                        if over {
                             if this.hang_is_violation {
                                 let v: Value = stash
                                     .as_ref()
@@ -428,7 +469,7 @@ impl Engine {
                                     &Failure::new(
                                         "hang",
                                         format!(
-                                            "case did not finish within {:?}",
+                                            "case did not finish within {:?} of CPU time",
                                             this.case_deadline
                                         ),
                                     ),
@@ -559,7 +600,8 @@ impl Engine {
             } else {
                 None
             };
-            *slot.started.lock().unwrap() = Some((Instant::now(), stash));
+            let clock = own_cpu_clock();
+            *slot.started.lock().unwrap() = Some((Instant::now(), cpu_time(clock).unwrap_or_default(), clock, stash));
             if let Some(tp) = &self.trace_path {
                 // crash localisation mode (single thread): the case is on disk before it runs
                 let doc = json!({"property": self.id, "stage": stage, "kind": "crash",
